@@ -16,8 +16,26 @@
 //     singular-value profiles, both |det| branches, affine last column perturbed by one ulp (fast path vs general path must
 //     agree to 2c: `affine-jump:*`), finiteness of every result for cond < 1/eps^2 (entries within a dynamic range of 1/eps^2), and on integer lattices every entry
 //     produced by one division must be the correctly rounded adj/det.  The fixed witnesses come first (unseeded).
+//     GUARD (independent float-level specification, `guardSpec`): for every matrix given to the determinant-based inverse()
+//     the determinant and the cofactors the property speaks of (all of them; of the linear block on the affine arms) are
+//     computed in quad with rigorous rounding/underflow intervals for the values the T-code can have computed; outside
+//     that band the outcome is decided: |det| >= 1, or |det|/min() above every |cofactor|  =>  NOT the identity (unless
+//     M = I); |det| < 1 and |det|/min() at or below some |cofactor|  =>  the identity.  Identity results are no longer
+//     dropped: they are accepted only where this spec asks for them (or cannot decide).  Generator classes `guard-edge-*`
+//     scale one row of the block to put |det|/min() above all / between the two largest / below / within ulps of the
+//     cofactors; fixed exact ties (`guard-tie`).  Gauss-Jordan paths: an identity result for cond < 1/(64 eps) is a failure.
+//     affine-jump pairs where exactly ONE side is the identity are counted (`RJUMP`): they must be explained by the
+//     exact-arithmetic theorems M33_arms_disagree_iff / M44_affine_vs_gj (spec verdicts decided on both sides) and can
+//     not occur for cond <= 1/eps (`residue:affine-jump-identity:<fn>`).
 //     Lines: `RESIDUE-FAIL <key> ...` (key = residue:accuracy:<path> | residue:affine-jump:<fn> | residue:nonfinite:<path> |
-//     residue:lattice:<path>; at most 4 per key and type), `RPATH <path> <ty> n= judged= worst= ...`, one `RESIDUE ...` summary.
+//     residue:lattice:<path> | residue:guard:<path> | residue:affine-jump-identity:<fn> | residue:residual:<path>; at most 4
+//     per key and type), `RPATH <path> <ty> n= judged= worst= ...`, `RGUARD ...`, `RJUMP ...`, one `RESIDUE ...` summary.
+//
+//   c06_inv exh33 <stride> <offset>   EXHAUSTIVE small-integer 3x3 families for the three-way tie real code / hand model /
+//     specification: family x = all 4^9 matrices over {-1,0,1,2} (those with hash(index) % stride == offset), family y = first
+//     column in {-2..2}^3, other entries in {0,1} (all 8000, double and float).  Lines as in `corr` followed by
+//     ` ## det=<exact integer> q=<9 reduced fractions of det^-1 * adjugate | ->`; in-process (`EXH-FAIL`): threw <=> det = 0
+//     <=> identity returned; otherwise every entry within 8 eps * max|X| of adj/det.  Last line `EXH cases= ...`.
 #include <ImathMatrix.h>
 #include <ImathMatrixAlgo.h>
 #include <cmath>
@@ -72,7 +90,7 @@ template <class T, int N> static void selfFailLine (const char* what, const type
     printf ("SELF-FAIL %s %d%s in=%s\n", what, N, tyName<T> (), inHex<T, N> (m).c_str ());
 }
 
-template <class T, int N> static void emitCase (const std::string& cls, const typename MatT<T, N>::type& m)
+template <class T, int N> static void emitCase (const std::string& cls, const typename MatT<T, N>::type& m, const std::string& suffix = "")
 {
     typedef typename MatT<T, N>::type M;
     ++corrCases;
@@ -85,7 +103,7 @@ template <class T, int N> static void emitCase (const std::string& cls, const ty
     catch (...) { threw = true; selfFailLine<T, N> ("gjInverse(true)-throws-other-type", m); }
     printf ("%s%ld %d %s%s => %d%s exc=%s", cls.c_str (), k, N, tyName<T> (), inHex<T, N> (m).c_str (), N, tyName<T> (), threw ? "invalidArgument" : "ok");
     for (int i = 0; i < N; ++i) for (int j = 0; j < N; ++j) printf (" %s", hexOf (r[i][j]).c_str ());
-    printf ("\n");
+    printf ("%s\n", suffix.c_str ());
     // in-process identities between the spellings
     ++selfChecks;
     if (!threw && !eqM<M, N> (r, re)) selfFailLine<T, N> ("gjInverse(true)-value-differs-from-gjInverse()", m);
@@ -242,7 +260,7 @@ template <int N> static Q normInf (const Q a[4][4])
 }
 
 // one record per (path, element type); the path names are the stable part of the failure keys
-struct PathStat { long n = 0, judged = 0, fails = 0, nonfinite = 0, printed = 0; double worst = 0, worstCond = 0; };
+struct PathStat { long n = 0, judged = 0, fails = 0, nonfinite = 0, printed = 0; double worst = 0, worstCond = 0, worstRes = 0; };
 static std::map<std::string, PathStat> pstat;
 static std::map<std::string, long> classN;
 static long rEvals = 0, rFail = 0, detGe1 = 0, detLt1 = 0, guardIdentity = 0, finiteChecked = 0, latticeChecked = 0, rangeExcluded = 0;
@@ -287,6 +305,121 @@ static void failLine (PathStat& st, const std::string& key, const std::string& t
     ++rFail; ++st.fails;
     if (st.printed++ < 4) printf ("RESIDUE-FAIL %s %s\n", key.c_str (), text.c_str ());
 }
+//---------------------------------------------------------------------------------------------------------------
+// independent float-level specification of the overflow guard of the determinant-based inverse() (audit C06 S2)
+//
+// The property: "a determinant so small that dividing the cofactors by it would overflow => identity", i.e. with r = det
+// of the block the arm inverts (whole matrix; linear block on the affine arms) and s_ij its cofactors:
+//     |r| >= 1  or  |r| / numeric_limits<T>::min() > |s_ij| for ALL i,j   =>  adj/det        else identity.
+// r and s_ij are recomputed here in quad from the T-valued input, together with a rigorous bound on how far the values
+// computed in T arithmetic (any evaluation order, incl. underflow to denormals) can be from them; the verdict is
+// G_DIV / G_ID when every value in those intervals decides the same way, G_BAND otherwise.
+enum { G_ID = -1, G_BAND = 0, G_DIV = 1 };
+struct GuardVerdict { bool applies = false; int v = G_BAND; int unique = -1; int K = 0; double q = 0; };
+struct GuardStat { long n = 0, mustDivide = 0, mustIdentity = 0, band = 0, fails = 0, ties = 0, printed = 0; unsigned posMask = 0; int K = 0; };
+static std::map<std::string, GuardStat> gstat;
+struct JumpStat { long pairs = 0, oneSide = 0, arms = 0, moved = 0, band = 0, unexplained = 0, withinCond = 0, printed = 0; };
+static std::map<std::string, JumpStat> jstat;
+
+// forceGeneral (3x3 only): the predicate of the GENERAL arm (all nine cofactors) evaluated on an affine matrix
+template <class T, int N> static GuardVerdict guardSpec (const typename MatT<T, N>::type& m, bool forceGeneral = false)
+{
+    GuardVerdict g;
+    const bool aff = N > 2 && isAffine<T, N> (m) && !(forceGeneral && N == 3);
+    if (N == 4 && !aff) return g;                       // Gauss-Jordan arm: no guard
+    g.applies = true;
+    const int K = N == 2 ? 2 : aff ? N - 1 : N;
+    g.K = K;
+    const Q eps = (Q) std::numeric_limits<T>::epsilon (), u = (Q) std::numeric_limits<T>::denorm_min (), mn = (Q) std::numeric_limits<T>::min ();
+    const Q G = 16;
+    Q b[3][3], cof[9], dcof[9], det = 0, ddet = 0;
+    for (int i = 0; i < K; ++i) for (int j = 0; j < K; ++j) b[i][j] = (Q) m[i][j];
+    if (K == 2)
+    {
+        // position (row deleted, column deleted): the cofactor is the remaining entry, exactly
+        for (int i = 0; i < 2; ++i) for (int j = 0; j < 2; ++j) { cof[2 * i + j] = qabs (b[1 - i][1 - j]); dcof[2 * i + j] = 0; }
+        det = b[0][0] * b[1][1] - b[1][0] * b[0][1];
+        ddet = G * eps * (qabs (b[0][0] * b[1][1]) + qabs (b[1][0] * b[0][1])) + G * u;
+    }
+    else
+    {
+        Q sgn[3][3], pc[3][3];
+        for (int i = 0; i < 3; ++i) for (int j = 0; j < 3; ++j)
+        {
+            const int r1 = i == 0 ? 1 : 0, r2 = i == 2 ? 1 : 2, c1 = j == 0 ? 1 : 0, c2 = j == 2 ? 1 : 2;
+            Q mnr = b[r1][c1] * b[r2][c2] - b[r1][c2] * b[r2][c1];
+            sgn[i][j] = ((i + j) & 1) ? -mnr : mnr;
+            pc[i][j] = qabs (b[r1][c1] * b[r2][c2]) + qabs (b[r1][c2] * b[r2][c1]);
+            cof[3 * i + j] = qabs (mnr);
+            dcof[3 * i + j] = G * eps * pc[i][j] + G * u;
+        }
+        Q pd = 0, sa = 0;
+        for (int k = 0; k < 3; ++k) { det += b[0][k] * sgn[0][k]; pd += qabs (b[0][k]) * pc[0][k]; sa += qabs (b[0][k]); }
+        ddet = G * eps * pd + G * u * (1 + sa);
+    }
+    const Q ra = qabs (det), rlo = ra > ddet ? ra - ddet : 0, rhi = ra + ddet;
+    int nPass = 0, nFail = 0, failPos = -1;
+    Q qmin = -1;
+    for (int p = 0; p < K * K; ++p)
+    {
+        if (rlo / mn > cof[p] + dcof[p]) ++nPass;                                // every admissible mr > |s|
+        else if (cof[p] > dcof[p] && rhi / mn <= cof[p] - dcof[p]) { ++nFail; failPos = p; }   // every admissible mr <= |s|
+        if (cof[p] > 0) { Q q = ra / mn / cof[p]; if (qmin < 0 || q < qmin) qmin = q; }
+    }
+    g.q = qmin < 0 ? INFINITY : (double) qmin;
+    const bool allPass = nPass == K * K;
+    if (rlo >= 1) g.v = G_DIV;
+    else if (rhi < 1) g.v = allPass ? G_DIV : nFail ? G_ID : G_BAND;
+    else g.v = allPass ? G_DIV : G_BAND;
+    if (g.v == G_ID && nFail == 1 && nPass == K * K - 1) g.unique = failPos;
+    return g;
+}
+template <class T, int N> static bool inputIsIdentity (const typename MatT<T, N>::type& m)
+{
+    const T e = 4 * std::numeric_limits<T>::epsilon ();
+    for (int i = 0; i < N; ++i) for (int j = 0; j < N; ++j) if (std::fabs (m[i][j] - (i == j ? (T) 1 : (T) 0)) > e) return false;
+    return true;
+}
+static void guardFail (GuardStat& gs, const std::string& key, const std::string& text)
+{
+    ++rFail; ++gs.fails;
+    if (gs.printed++ < 4) printf ("RESIDUE-FAIL %s %s\n", key.c_str (), text.c_str ());
+}
+// compare the outcome of the determinant-based inverse() (identity / not) with the spec; returns the verdict
+template <class T, int N> static int guardCheck (const std::string& cls, const std::string& path, const typename MatT<T, N>::type& m, const typename MatT<T, N>::type& got, bool& violated)
+{
+    violated = false;
+    GuardVerdict g = guardSpec<T, N> (m);
+    if (!g.applies) return G_BAND;
+    GuardStat& gs = gstat[path + " " + tyName<T> ()];
+    ++gs.n; gs.K = g.K;
+    const bool id = isIdentity<T, N> (got);
+    char buf[300];
+    snprintf (buf, 300, "%s min|det|/(min()*|cofactor|)=%.6g class=%s in=", tyName<T> (), g.q, cls.c_str ());
+    if (g.v == G_DIV)
+    {
+        ++gs.mustDivide;
+        if (id && !inputIsIdentity<T, N> (m))
+        {
+            violated = true;
+            guardFail (gs, "residue:guard:" + path, std::string ("returned-identity-although-|det|>=1-or-|det|/min()-exceeds-every-cofactor ") + buf + showM<T, N> (m) + " dec=" + showDec<T, N> (m));
+        }
+    }
+    else if (g.v == G_ID)
+    {
+        ++gs.mustIdentity;
+        if (g.unique >= 0) gs.posMask |= 1u << g.unique;
+        if (!id)
+        {
+            violated = true;
+            guardFail (gs, "residue:guard:" + path, std::string ("inverted-although-|det|<1-and-|det|/min()-is-at-or-below-a-cofactor ") + buf + showM<T, N> (m) + " dec=" + showDec<T, N> (m));
+        }
+    }
+    else ++gs.band;
+    return g.v;
+}
+static bool isGJPath (const std::string& path) { return path.find ("gjInverse") != std::string::npos || path.find ("nonaffine") != std::string::npos; }
+
 // error of `got` against the quad inverse of m, in units of cond*eps*||X||
 template <class T, int N> static void judge (const std::string& cls, const std::string& path, const typename MatT<T, N>::type& m, const typename MatT<T, N>::type& got)
 {
@@ -295,6 +428,10 @@ template <class T, int N> static void judge (const std::string& cls, const std::
     ++rEvals; ++classN[cls];
     PathStat& st = pstat[path + " " + tyName<T> ()];
     ++st.n;
+    const bool gj = isGJPath (path);
+    bool guardViolated = false;
+    const int gv = gj ? G_BAND : guardCheck<T, N> (cls, path, m, got, guardViolated);
+    if (guardViolated) return;                 // reported under residue:guard:<path>
     if (!invQ<N> (a, x)) return;
     Q eps = (Q) std::numeric_limits<T>::epsilon ();
     Q nx = normInf<N> (x), cond = normInf<N> (a) * nx;
@@ -318,11 +455,31 @@ template <class T, int N> static void judge (const std::string& cls, const std::
         }
     }
     if (cond > 1 / eps || !fin) return;       // accuracy is claimed up to cond = 1/eps
-    if (isIdentity<T, N> (got) && cond > 4)
+    if (isIdentity<T, N> (got) && !inputIsIdentity<T, N> (m))
     {
-        // the overflow guard fired (|det| tiny against the cofactors): a "clean singular outcome", not an accuracy case
-        ++guardIdentity;
-        return;
+        if (gj)
+        {
+            // zero-pivot exit.  Backward error analysis of partial pivoting: the computed pivots are the exact pivots of
+            // M + E, |E| <= c eps |M|, nonsingular when cond * c * eps < 1: below cond = 1/(64 eps) the exit is a failure
+            GuardStat& gs = gstat[path + " " + tyName<T> ()];
+            ++gs.n;
+            if (cond * 64 * eps < 1)
+            {
+                ++gs.mustDivide;
+                snprintf (buf, 400, "%s cond=%.3g class=%s in=", tyName<T> (), (double) cond, cls.c_str ());
+                guardFail (gs, "residue:guard:" + path, std::string ("zero-pivot-exit-(identity)-for-a-matrix-with-cond<1/(64eps) ") + buf + showM<T, N> (m) + " dec=" + showDec<T, N> (m));
+                return;
+            }
+            ++gs.band; ++guardIdentity;
+            return;
+        }
+        if (gv != G_DIV)
+        {
+            // the spec asks for the identity, or cannot decide (|det|/min() within rounding of a cofactor, or a determinant
+            // that is zero up to rounding): a "clean singular outcome", not an accuracy case
+            ++guardIdentity;
+            return;
+        }
     }
     ++st.judged;
     Q err = 0;
@@ -333,6 +490,24 @@ template <class T, int N> static void judge (const std::string& cls, const std::
     {
         snprintf (buf, 400, "%s err/(cond*eps*|X|)=%.4g bound=%g cond=%.3g class=%s in=", tyName<T> (), ratio, CBOUND, (double) cond, cls.c_str ());
         failLine (st, "residue:accuracy:" + path, buf + showM<T, N> (m) + " dec=" + showDec<T, N> (m));
+        return;
+    }
+    // the property's other wording: M*X and X*M equal the identity "to that accuracy times the norm of M" -- computed in
+    // quad from the T-valued result:  max_ij(|M X - I|, |X M - I|) <= N * (c * cond * eps * |X|) * |M| = c * N * cond^2 * eps
+    // (implied by the entrywise bound just judged, so it cannot fail on its own; it is the direct measurement of that clause)
+    Q res = 0;
+    for (int i = 0; i < N; ++i) for (int j = 0; j < N; ++j)
+    {
+        Q l = 0, r = 0;
+        for (int k = 0; k < N; ++k) { l += a[i][k] * (Q) got[k][j]; r += (Q) got[i][k] * a[k][j]; }
+        res = std::max (res, std::max (qabs (l - (i == j ? 1 : 0)), qabs (r - (i == j ? 1 : 0))));
+    }
+    double rr = (double) (res / (cond * cond * eps * N));
+    if (rr > st.worstRes) st.worstRes = rr;
+    if (rr > CBOUND)
+    {
+        snprintf (buf, 400, "%s max(|MX-I|,|XM-I|)/(N*cond^2*eps)=%.4g bound=%g cond=%.3g class=%s in=", tyName<T> (), rr, CBOUND, (double) cond, cls.c_str ());
+        failLine (st, "residue:residual:" + path, buf + showM<T, N> (m) + " dec=" + showDec<T, N> (m));
     }
 }
 template <class T> static T detOf (const Matrix22<T>& m) { return m.determinant (); }
@@ -371,10 +546,42 @@ template <class T, int N> static void jump (const std::string& cls, const typena
     std::string path = std::string ("affine-jump:") + (N == 3 ? "M33.inverse" : "M44.inverse");
     PathStat& st = pstat[path + " " + tyName<T> ()];
     ++st.n;
-    if (!invQ<N> (a, x) || !finiteM<T, N> (x0) || !finiteM<T, N> (x1)) return;
-    Q e = (Q) std::numeric_limits<T>::epsilon (), nx = normInf<N> (x), cond = normInf<N> (a) * nx, jmp = 0;
+    const bool inv = invQ<N> (a, x);
+    ++jstat[path + " " + tyName<T> ()].pairs;
+    Q e = (Q) std::numeric_limits<T>::epsilon (), nx = inv ? normInf<N> (x) : 0, cond = normInf<N> (a) * nx, jmp = 0;
+    const bool id0 = isIdentity<T, N> (x0), id1 = isIdentity<T, N> (x1);
+    if (id0 != id1)
+    {
+        // exactly one side took the singular exit.  In exact arithmetic (Props/C06.lean: M33_arms_disagree_iff,
+        // M44_affine_vs_gj) this happens only when an entry of the exact inverse is >= 1/min():  3x3: the fast path accepts
+        // (block cofactors pass) and the general arm refuses (a translation cofactor fails);  4x4: the fast path refuses
+        // (a block cofactor fails) and Gauss-Jordan inverts.  Such pairs are counted, never silently skipped.
+        JumpStat& js = jstat[path + " " + tyName<T> ()];
+        ++js.oneSide;
+        GuardVerdict g0 = guardSpec<T, N> (m), g1 = guardSpec<T, N> (p);
+        // each side's outcome is what the spec of ITS arm decides on ITS matrix
+        const bool decided = (id0 ? g0.v == G_ID : g0.v == G_DIV) && (!g1.applies || (id1 ? g1.v == G_ID : g1.v == G_DIV));
+        // ... and it is the disagreement of the two ARMS on the affine matrix itself (the theorems), not the perturbation
+        // having moved the matrix across the threshold (the one-ulp change of the last column changes the determinant by
+        // (translation cofactor) * ulp, which is not small against a determinant near min())
+        const bool arms = N == 3 ? (!id0 && id1 && guardSpec<T, N> (m, true).v == G_ID) : (id0 && !id1 && !isIdentity<T, N> (gjOf (m)));
+        if (decided && arms) ++js.arms;
+        else if (decided) ++js.moved;
+        else if (g0.v == G_BAND || (g1.applies && g1.v == G_BAND)) ++js.band;
+        else ++js.unexplained;             // a guard violation on one side: reported by judge() under residue:guard:<path>
+        if (inv && cond <= 1 / e)
+        {
+            ++js.withinCond;
+            char buf[300];
+            snprintf (buf, 300, "%s identity-on-%s-side-only cond=%.3g class=%s in=", tyName<T> (), id0 ? "the-affine" : "the-perturbed", (double) cond, cls.c_str ());
+            ++rFail;
+            if (js.printed++ < 4)
+                printf ("RESIDUE-FAIL residue:affine-jump-identity:%s %s%s perturbed=%s dec=%s\n", N == 3 ? "M33.inverse" : "M44.inverse", buf, showM<T, N> (m).c_str (), showM<T, N> (p).c_str (), showDec<T, N> (m).c_str ());
+        }
+        return;
+    }
+    if (!inv || !finiteM<T, N> (x0) || !finiteM<T, N> (x1)) return;
     if (cond > 1 / e) return;
-    if (isIdentity<T, N> (x0) != isIdentity<T, N> (x1)) return;   // one side took the guarded singular exit
     for (int i = 0; i < N; ++i) for (int j = 0; j < N; ++j) jmp = std::max (jmp, qabs ((Q) x0[i][j] - (Q) x1[i][j]));
     double ratio = (double) (jmp / (cond * e * nx));
     ++st.judged;
@@ -421,7 +628,12 @@ template <class T, int N> static void lattice (const typename MatT<T, N>::type& 
         if (!isIdentity<T, N> (got)) failLine (st, "residue:lattice:" + path, std::string (tyName<T> ()) + " singular-integer-matrix-not-identity in=" + showM<T, N> (m) + " dec=" + showDec<T, N> (m));
         return;
     }
-    if (isIdentity<T, N> (got)) return;
+    if (isIdentity<T, N> (got) && !isIdentity<T, N> (m))
+    {
+        // a non-singular integer matrix has |det| >= 1: the unguarded branch, never the identity (unless M = I)
+        failLine (st, "residue:lattice:" + path, std::string (tyName<T> ()) + " nonsingular-integer-matrix-gave-identity in=" + showM<T, N> (m) + " dec=" + showDec<T, N> (m));
+        return;
+    }
     // entries obtained by one division: all of them (general arms), or the leading (N-1)x(N-1) block (affine arms)
     int K = (path == "M33.inverse:affine-arm" || path == "M44.inverse:cofactor-affine-arm") ? N - 1 : N;
     ++st.judged; ++latticeChecked;
@@ -511,6 +723,101 @@ template <class T> static void fixedWitnesses ()
     jump<T, 4> ("fixed-witness", m4, p4);
 }
 
+// guard-edge classes: a well-conditioned K x K block A with row k scaled by t so that |det|/min() sits above all cofactors
+// (mode 0, 4), between the two largest (mode 1: exactly one guard fails, at a position that varies with k), below the
+// cofactors of the unscaled rows (mode 2), or within a few ulps of one of them (mode 3: either outcome is acceptable).
+// affine != 0: the block is the linear part of an affine N x N matrix (translation row up to +-64).
+template <class T, int N> static void guardEdge (long it, bool affine)
+{
+    typedef typename MatT<T, N>::type M;
+    const int K = affine ? N - 1 : N;
+    if (K > 3 || K < 2) return;
+    const Q mn = (Q) std::numeric_limits<T>::min (), eps = (Q) std::numeric_limits<T>::epsilon ();
+    Q A[3][3], det = 0;
+    for (int tries = 0; tries < 50; ++tries)
+    {
+        for (int i = 0; i < K; ++i) for (int j = 0; j < K; ++j) A[i][j] = (Q) (T) urand ();
+        det = K == 2 ? A[0][0] * A[1][1] - A[1][0] * A[0][1]
+                     : A[0][0] * (A[1][1] * A[2][2] - A[2][1] * A[1][2]) - A[0][1] * (A[1][0] * A[2][2] - A[2][0] * A[1][2]) + A[0][2] * (A[1][0] * A[2][1] - A[2][0] * A[1][1]);
+        if (qabs (det) > 0.05) break;
+    }
+    if (!(qabs (det) > 0.05)) return;
+    const int k = (int) irand (0, K - 1);
+    // cofactors that do not contain row k (they keep their size when row k is scaled)
+    std::vector<Q> c;
+    for (int j = 0; j < K; ++j)
+    {
+        if (K == 2) c.push_back (qabs (A[1 - k][1 - j]));
+        else
+        {
+            const int r1 = k == 0 ? 1 : 0, r2 = k == 2 ? 1 : 2, c1 = j == 0 ? 1 : 0, c2 = j == 2 ? 1 : 2;
+            c.push_back (qabs (A[r1][c1] * A[r2][c2] - A[r1][c2] * A[r2][c1]));
+        }
+    }
+    std::sort (c.begin (), c.end (), [] (Q a, Q b) { return a > b; });
+    if (!(c.back () > 1e-3)) return;
+    int mode = (int) (it % 5);
+    if (mode == 1 && !(c[0] > c[1] * (Q) 1.05)) mode = 0;
+    Q target;
+    switch (mode)
+    {
+        case 0: target = c[0] * (2 + 2 * (Q) std::fabs (urand ())); break;
+        case 1: target = (Q) std::sqrt ((double) (c[0] * c[1])); break;
+        case 2: target = c.back () / 4; break;
+        case 3: target = c[irand (0, K - 1)] * (1 + (Q) irand (-3, 3) * eps); break;
+        default: target = c[0] * (Q) std::ldexp (1.0, (int) irand (2, 40)); break;
+    }
+    const Q t = target * mn / qabs (det);
+    M m;
+    for (int i = 0; i < N; ++i) for (int j = 0; j < N; ++j) m[i][j] = 0;
+    for (int i = 0; i < K; ++i) for (int j = 0; j < K; ++j) m[i][j] = (T) (i == k ? A[i][j] * t : A[i][j]);
+    if (affine)
+    {
+        for (int j = 0; j < K; ++j) m[N - 1][j] = (T) (urand () * 64);
+        makeAffine<T, N> (m);
+    }
+    else if (N > 2 && isAffine<T, N> (m)) return;
+    static const char* names[] = {"guard-edge-pass", "guard-edge-one-fails", "guard-edge-fails", "guard-edge-ulps", "guard-edge-pass-far"};
+    both<T, N> (names[mode], m);
+    if (affine) jump<T, N> (names[mode], m, perturbLastColumn<T, N> (m));
+}
+
+// FIXED exact ties of the guard (every operation exact): |det|/min() EQUAL to a cofactor must give the identity (`>` is
+// strict), twice that must not.  d = min():  M22 diag(1,d);  M33 general diag(1,d,2);  M33 affine [[1,0,0],[0,d,0],[5,7,1]];
+// M44 affine with linear block diag(1,d,2) and translation (5,7,9).  Also |det| >= 1 with a cofactor above |det|/min()
+// (the guard must not be consulted): M22 diag(1/min(), min()).
+template <class T> static void guardTies ()
+{
+    const T d = std::numeric_limits<T>::min ();
+    auto check = [&] (const std::string& path, bool wantIdentity, bool gotIdentity, const std::string& in)
+    {
+        GuardStat& gs = gstat[path + " " + tyName<T> ()];
+        ++gs.ties;
+        if (wantIdentity != gotIdentity)
+            guardFail (gs, "residue:guard:" + path, std::string (tyName<T> ()) + (wantIdentity ? " exact-tie-|det|/min()==|cofactor|-must-give-the-identity" : " |det|/min()-twice-the-largest-cofactor-or-|det|>=1-must-not-give-the-identity") + " class=guard-tie in=" + in);
+    };
+    for (int f = 1; f <= 2; ++f)
+    {
+        const bool want = f == 1;
+        Matrix22<T> a (1, 0, 0, d * f);
+        check ("M22.inverse", want, isIdentity<T, 2> (a.inverse ()), showM<T, 2> (a));
+        Matrix33<T> g (1, 0, 0, 0, d * f, 0, 0, 0, 2);
+        check ("M33.inverse:cofactor-general-arm", want, isIdentity<T, 3> (g.inverse ()), showM<T, 3> (g));
+        Matrix33<T> h (1, 0, 0, 0, d * f, 0, 5, 7, 1);
+        check ("M33.inverse:affine-arm", want, isIdentity<T, 3> (h.inverse ()), showM<T, 3> (h));
+        Matrix44<T> q (1, 0, 0, 0, 0, d * f, 0, 0, 0, 0, 2, 0, 5, 7, 9, 1);
+        check ("M44.inverse:cofactor-affine-arm", want, isIdentity<T, 4> (q.inverse ()), showM<T, 4> (q));
+        // the in-place and `bool` spellings take the same exits
+        Matrix22<T> a2 (a); a2.invert (); Matrix33<T> g2 (g); g2.invert (false); Matrix44<T> q2 (q); q2.invert ();
+        check ("M22.inverse", want, isIdentity<T, 2> (a2), showM<T, 2> (a));
+        check ("M33.inverse:cofactor-general-arm", want, isIdentity<T, 3> (g2), showM<T, 3> (g));
+        check ("M44.inverse:cofactor-affine-arm", want, isIdentity<T, 4> (q2), showM<T, 4> (q));
+    }
+    const int emin = std::numeric_limits<T>::min_exponent - 1;                                // min() = 2^emin
+    Matrix22<T> big ((T) std::ldexp (1.0, -emin), 0, 0, (T) std::ldexp (1.0, emin));          // det = 1, cofactor 1/min() = |det|/min()
+    check ("M22.inverse", false, isIdentity<T, 2> (big.inverse ()), showM<T, 2> (big));
+}
+
 template <class T, int N> static void residueRound (long it)
 {
     typedef typename MatT<T, N>::type M;
@@ -571,6 +878,9 @@ template <class T, int N> static void residueRound (long it)
         both<T, N> ("affine-small-block", m);
         jump<T, N> ("affine-small-block", m, perturbLastColumn<T, N> (m));
     }
+    // the overflow guard itself, on both sides of its threshold
+    if (N < 4) guardEdge<T, N> (it, false);
+    if (N > 2) guardEdge<T, N> (it, true);
 }
 
 static int residueMain (unsigned long seed, long n)
@@ -583,15 +893,117 @@ static int residueMain (unsigned long seed, long n)
         residueRound<double, 2> (it); residueRound<double, 3> (it); residueRound<double, 4> (it);
         residueRound<float, 2> (it); residueRound<float, 3> (it); residueRound<float, 4> (it);
     }
+    guardTies<double> ();          // after the seeded rounds: the first line printed for a guard key is then an ordinary matrix
+    guardTies<float> ();
     for (auto& kv : pstat)
         printf ("RPATH %s n=%ld judged=%ld worst=%.4g worst_at_cond=%.3g fails=%ld nonfinite=%ld\n", kv.first.c_str (), kv.second.n, kv.second.judged, kv.second.worst, kv.second.worstCond, kv.second.fails,
                 kv.second.nonfinite);
+    for (auto& kv : pstat)
+        if (kv.second.judged && kv.first.compare (0, 8, "lattice:") != 0 && kv.first.compare (0, 12, "affine-jump:") != 0)
+            printf ("RRESIDUAL %s worst=%.4g\n", kv.first.c_str (), kv.second.worstRes);
+    for (auto& kv : gstat)
+    {
+        int bits = 0;
+        for (int b = 0; b < 9; ++b) bits += (kv.second.posMask >> b) & 1;
+        printf ("RGUARD %s n=%ld must_divide=%ld must_identity=%ld band=%ld ties=%ld unique_fail_positions=%d/%d fails=%ld\n", kv.first.c_str (), kv.second.n, kv.second.mustDivide, kv.second.mustIdentity,
+                kv.second.band, kv.second.ties, bits, kv.second.K * kv.second.K, kv.second.fails);
+    }
+    for (auto& kv : jstat)
+        printf ("RJUMP %s pairs=%ld one_side_identity=%ld arms_disagree_as_in_theorem=%ld perturbation_crossed_threshold=%ld band=%ld unexplained=%ld within_cond_1/eps=%ld\n", kv.first.c_str (), kv.second.pairs,
+                kv.second.oneSide, kv.second.arms, kv.second.moved, kv.second.band, kv.second.unexplained, kv.second.withinCond);
     printf ("RCLASSES");
     for (auto& kv : classN) printf (" %s=%ld", kv.first.c_str (), kv.second);
     printf ("\n");
     printf ("RESIDUE evals=%ld failures=%ld bound=%g det_ge1=%ld det_lt1=%ld guard_identity=%ld finite_checked=%ld lattice_checked=%ld dynamic_range_excluded_from_finiteness=%ld\n", rEvals, rFail, CBOUND, detGe1, detLt1, guardIdentity,
             finiteChecked, latticeChecked, rangeExcluded);
     return rFail ? 1 : 0;
+}
+
+//---------------------------------------------------------------------------------------------------------------
+// exhaustive small-integer 3x3 families (three-way tie real code / hand model / det^-1 * adjugate)
+
+static long exhCases = 0, exhFail = 0, exhSingular = 0;
+static long long gcdll (long long a, long long b) { a = a < 0 ? -a : a; b = b < 0 ? -b : b; while (b) { long long t = a % b; a = b; b = t; } return a; }
+static std::string fracStr (long long n, long long d)
+{
+    if (d < 0) { n = -n; d = -d; }
+    long long g = gcdll (n, d);
+    if (g > 1) { n /= g; d /= g; }
+    char b[60];
+    if (d == 1) snprintf (b, 60, "%lld", n); else snprintf (b, 60, "%lld/%lld", n, d);
+    return b;
+}
+template <class T> static void exhCase (const std::string& fam, const int v[9])
+{
+    Matrix33<T> m;
+    long long a[4][4];
+    for (int i = 0; i < 3; ++i) for (int j = 0; j < 3; ++j) { m[i][j] = (T) v[3 * i + j]; a[i][j] = v[3 * i + j]; }
+    int all[4] = {0, 1, 2, 3};
+    const long long det = idet (a, all, all, 3);
+    std::string q;
+    long long adj[3][3];
+    for (int i = 0; i < 3; ++i) for (int j = 0; j < 3; ++j)
+    {
+        int rr[3], cc[3], k = 0;
+        for (int t = 0; t < 3; ++t) if (t != j) rr[k++] = t;
+        k = 0;
+        for (int t = 0; t < 3; ++t) if (t != i) cc[k++] = t;
+        long long c = idet (a, rr, cc, 2);
+        adj[i][j] = ((i + j) & 1) ? -c : c;
+        if (det != 0) q += (q.empty () ? "" : ",") + fracStr (adj[i][j], det);
+    }
+    char suf[80];
+    snprintf (suf, 80, " ## det=%lld q=", det);
+    ++exhCases;
+    if (det == 0) ++exhSingular;
+    const long before = selfFail;
+    emitCase<T, 3> (fam, m, std::string (suf) + (det == 0 ? "-" : q));
+    if (selfFail != before) ++exhFail;
+    // real code against the exact specification, in-process
+    Matrix33<T> r = m.gjInverse ();
+    bool threw = false;
+    try { (void) m.gjInverse (true); } catch (...) { threw = true; }
+    const char* what = 0;
+    if (threw != (det == 0)) what = "gjInverse(true)-throws-iff-det=0";
+    else if (det == 0 && !isIdentity<T, 3> (r)) what = "singular-but-not-identity";
+    else if (det != 0)
+    {
+        Q mx = 0, err = 0;
+        for (int i = 0; i < 3; ++i) for (int j = 0; j < 3; ++j)
+        {
+            Q w = (Q) adj[i][j] / (Q) det;
+            mx = std::max (mx, qabs (w)); err = std::max (err, qabs ((Q) r[i][j] - w));
+        }
+        if (!(err <= 8 * (Q) std::numeric_limits<T>::epsilon () * mx)) what = "entry-further-than-8eps*max|X|-from-adj/det";
+    }
+    if (what) { ++exhFail; printf ("EXH-FAIL %s %s in=%s dec=%s\n", what, tyName<T> (), showM<T, 3> (m).c_str (), showDec<T, 3> (m).c_str ()); }
+}
+static int exhMain (long stride, long offset)
+{
+    if (stride < 1) stride = 1;
+    static const int xs[4] = {-1, 0, 1, 2};
+    int v[9];
+    for (long idx = 0; idx < 262144; ++idx)
+    {
+        // a hash of the index, so that a 1-in-`stride` sample does not fix any entry of the matrix
+        if ((long) ((((uint64_t) idx * 2654435761ull) >> 9) % (uint64_t) stride) != offset % stride) continue;
+        long t = idx;
+        for (int k = 0; k < 9; ++k) { v[k] = xs[t & 3]; t >>= 2; }
+        exhCase<double> ("x-", v);
+    }
+    for (long idx = 0; idx < 8000; ++idx)
+    {
+        long t = idx;
+        for (int k = 0; k < 9; ++k)
+        {
+            if (k % 3 == 0) { v[k] = (int) (t % 5) - 2; t /= 5; }
+            else { v[k] = (int) (t & 1); t >>= 1; }
+        }
+        exhCase<double> ("y-", v);
+        exhCase<float> ("y-", v);
+    }
+    printf ("EXH cases=%ld singular=%ld fails=%ld self=%ld selffail=%ld\n", exhCases, exhSingular, exhFail, selfChecks, selfFail);
+    return exhFail || selfFail ? 1 : 0;
 }
 
 int main (int argc, char** argv)
@@ -602,6 +1014,7 @@ int main (int argc, char** argv)
     if (argc > 4) CBOUND = atof (argv[4]);
     if (mode == "corr") return corrMain (seed, n);
     if (mode == "residue") return residueMain (seed, n);
-    fprintf (stderr, "usage: c06_inv corr|residue <seed> <n> [c]\n");
+    if (mode == "exh33") return exhMain ((long) seed, n);
+    fprintf (stderr, "usage: c06_inv corr|residue <seed> <n> [c] | exh33 <stride> <offset>\n");
     return 2;
 }
